@@ -1,5 +1,5 @@
 (* C14 - Algorithm and attestation-format lists are filtered in order, never rejected. *)
-From Ctap Require Import Base Schema Wire Utf8 Typed Procs Inst Tables ProcTables Finite FramingP WireP FilterP.
+From Ctap Require Import Base Schema Wire Utf8 Typed Procs Inst Tables ProcTables Finite FramingP WireP FilterP ObRequestSide.
 Local Open Scope string_scope.
 Local Open Scope Z_scope.
 
